@@ -119,13 +119,15 @@ func (k Keeper) deleteSignalTotalPowerByPowerIndex(ctx sdk.Context, signalTotalP
 
 // GetSignalTotalPowersByPower gets the current signal-total-power sorted by power-rank.
 func (k Keeper) GetSignalTotalPowersByPower(ctx sdk.Context, limit uint64) []types.Signal {
-	signalTotalPowers := make([]types.Signal, limit)
+	// do not pre-allocate `limit` entries: it is a governance parameter and may be far larger
+	// than the number of signals (a huge value would panic or exhaust memory in the end blocker).
+	signalTotalPowers := make([]types.Signal, 0)
 
 	iterator := k.SignalTotalPowersByPowerStoreIterator(ctx)
 	defer iterator.Close()
 
 	i := 0
-	for ; iterator.Valid() && i < int(limit); iterator.Next() {
+	for ; iterator.Valid() && uint64(i) < limit; iterator.Next() {
 		bz := iterator.Value()
 		signalID := string(bz)
 		signalTotalPower, err := k.GetSignalTotalPower(ctx, signalID)
@@ -134,7 +136,7 @@ func (k Keeper) GetSignalTotalPowersByPower(ctx sdk.Context, limit uint64) []typ
 			continue
 		}
 
-		signalTotalPowers[i] = signalTotalPower
+		signalTotalPowers = append(signalTotalPowers, signalTotalPower)
 		i++
 	}
 
